@@ -320,8 +320,11 @@ def hash_provenance_rules(P, rep, rid, st):
         blkb = [cb for cv, cb in sw[0].cases if cv == st['BLK']]
         ok = len(blkb) == 1 and not any(x.id in d.reach([d.blocks[blkb[0]][0]], stop={dele[0].id}, include_start=True) for x in inval)
     rep.check(ok, rid, 'scan_file_deallocate: a BLK block keeps its hash (it is what the parity holds)', d.file, '', function='scan_file_deallocate', construct='BLK to DELETED')
-    # (c) new CHG blocks
-    a = P.fn('scan_file_allocate')
+    # (c) new CHG blocks (the code may live in a static helper split out of scan_file_allocate)
+    root = P.fn('scan_file_allocate')
+    a = locate_in_helpers(P, root, lambda g: any(g.const_of(x.ops[1]) == st['CHG'] for x in g.calls('block_state_set')))
+    if a is None:
+        raise AnalysisBroken('scan_file_allocate: the site that creates CHG blocks was not found (neither inline nor in a static helper)')
     rep.analysed(a)
     chg = [x for x in a.calls('block_state_set') if a.const_of(x.ops[1]) == st['CHG']]
     ok = len(chg) == 1
@@ -329,8 +332,32 @@ def hash_provenance_rules(P, rep, rid, st):
         zero = list(a.calls('hash_zero_set'))
         cp = [m for m in a.calls('llvm.memcpy.p0i8.p0i8.i64') if a.expr(m.ops[0]).endswith('block->hash[0]') and 'over_block->hash' in a.expr(m.ops[1])]
         fa_ = list(a.calls('fs_allocate'))
-        ok = len(zero) == 1 and len(cp) == 1 and len(fa_) == 1 and a.must_pass(fa_[0], zero + cp, start=chg[0])
+        ok = len(zero) == 1 and len(cp) == 1
+        if ok and fa_:
+            ok = len(fa_) == 1 and a.must_pass(fa_[0], zero + cp, start=chg[0])
+        elif ok:
+            # helper: every path from the state change to the helper's return sets the hash; the caller allocates afterwards
+            esc = a.reach([chg[0]], stop={x.id for x in zero + cp})
+            ok = not any(r_.id in esc for r_ in a.returns())
+            hc = [c for c in root.calls() if c.callee_full == a.name]
+            fr = list(root.calls('fs_allocate'))
+            ok = ok and len(hc) == 1 and len(fr) == 1 and fr[0].id in root.reach([hc[0]])
         # copy only from a DELETED predecessor, and invalidated when clear_past_hash is not set
         inv = [x for x in a.calls('hash_invalid_set') if a.dominates(cp[0], x)] if cp else []
         ok = ok and bool(inv)
     rep.check(ok, rid, 'scan_file_allocate: a new CHG block gets the ZERO hash or the hash of the DELETED block it overwrites', a.file, '', function='scan_file_allocate', construct='new CHG hash')
+
+
+def locate_in_helpers(P, root, pred, depth=0):
+    """the function satisfying `pred` among `root` and the static helpers it calls (two levels): code split out of an anchor function"""
+    if pred(root):
+        return root
+    if depth >= 2:
+        return None
+    for c in root.calls():
+        g = P.functions.get(c.callee_full) if c.callee_full else None
+        if g is not None and not g.decl and g.internal and g is not root:
+            r = locate_in_helpers(P, g, pred, depth + 1)
+            if r is not None:
+                return r
+    return None
